@@ -224,6 +224,11 @@ func (r *filteringReader) Read(p []byte) (int, error) {
 		if offset > 0 {
 			return offset, err
 		}
+		if err != nil {
+			// Only skippable bytes, delivered together with an error:
+			// report the error instead of dropping it.
+			return 0, err
+		}
 		// Previous buffer entirely whitespace, read again
 		n, err = r.wrapped.Read(p)
 	}
